@@ -279,8 +279,11 @@ def run_check(prop, mod, tier, level, explanation, assumptions, trusted_base, x8
     }
     if level == 'proof':
         # obligations of a proof-level claim are the decided ones; UNDECIDED are reported separately and not claimed
-        cov['obligations'] = proved + refuted
+        # claimed obligations = decided ones that are not listed known findings (those are reported separately and are
+        # explicitly outside the claim); on a tree without new violations obligations == discharged
+        cov['obligations'] = proved + len(violations)
         cov['discharged'] = proved
+        cov['known_finding_obligations'] = refuted - len(violations)
     if level == 'translation_validation':
         cov['programs'] = stats['kernels']
         cov['disagreements_checked'] = refuted
